@@ -76,6 +76,110 @@ def check_prune_looks_at_predicate(db, chk):
     chk.floor(R, "skip-capable answers examined", total, 20)
 
 
+def _is_fragment_id(c, op, depth=6):
+    """The operand is a fragment id: the trainer's cur_fragment_id (directly or as a captured upvar) or `row_addr >> 32`."""
+    p = op_place(op)
+    if p is None or depth == 0:
+        return False
+    if any(isinstance(e, dict) and str(e.get("f", "")).endswith("cur_fragment_id") for e in p):
+        return True
+    q = c.canon(p)
+    if any(isinstance(e, dict) and str(e.get("f", "")).endswith("cur_fragment_id") for e in q):
+        return True
+    if len(p) == 1:
+        d = c.single_def(p[0])
+        if d and d[0] == "assign":
+            rv = d[3]["rv"]
+            if rv["r"] == "bin" and rv["op"].startswith("Shr") and rv["b"].get("v") == 32:
+                return True
+            if rv["r"] == "use":
+                return _is_fragment_id(c, rv["op"], depth - 1)
+    return False
+
+
+def _back(c, target, stop=None):
+    """Blocks from which `target` is reachable without passing through `stop`."""
+    seen, work = {target}, [target]
+    while work:
+        x = work.pop()
+        for y in c.pred[x]:
+            if y not in seen and y != stop:
+                seen.add(y)
+                work.append(y)
+    return seen
+
+
+def check_fragment_ids_are_labels(db, chk):
+    R = "INV-fragment-ids-are-labels"
+    chk.rule(R, "zone / block trainers find fragment boundaries by comparing fragment ids, never by arithmetic on them")
+    for pat, file, flush in ((r"ZoneMapIndexBuilder::train$", "lance-index/src/scalar/zonemap.rs", "new_map"),
+                             (r"BloomFilterIndexBuilder::train$", "lance-index/src/scalar/bloomfilter.rs", "new_block")):
+        f = db.one(pat, file=file)
+        name = f.path.split("::")[-2]
+        arith, cmps = [], []
+        for g in f.family():
+            chk.analysed(g)
+            c = g.cfg
+            for i, j, s in c.stmts():
+                rv = s.get("rv") or {}
+                if rv.get("r") != "bin":
+                    continue
+                fa, fb = _is_fragment_id(c, rv["a"]), _is_fragment_id(c, rv["b"])
+                if rv["op"].startswith(("Add", "Sub", "Mul")) and (fa or fb):
+                    arith.append((g, s))
+                if rv["op"] in ("Eq", "Ne") and (fa or fb):
+                    cmps.append((g, s))
+        # fragment ids are sparse labels (fragments are deleted and compacted away): `current + 1` is not "the next fragment"
+        # and `current - 1` is not "the previous one"; a boundary is where the id *differs*
+        chk.ob(R, "%s:no-arithmetic" % name, not arith,
+               "%s::train performs no arithmetic on a fragment id (%s)" % (name, "none" if not arith else "at line(s) %s" % sorted({s["ln"] for _, s in arith})),
+               arith[0][0].loc(arith[0][1]["ln"]) if arith else f.loc())
+        # typestate: a zone never spans two fragments, so the trainer's notion of "current fragment" may only change while the
+        # current zone is empty -- right after a test that cur_zone_offset is 0, or after the zone was flushed
+        body = user_body(db, f, marker=flush)
+        c = body.cfg
+
+        def _fld(p, suffix):
+            return bool(p) and any(isinstance(e, dict) and str(e.get("f", "")).endswith(suffix) for e in p)
+        stores = [(i, s) for i, j, s in c.stmts() if _fld(s.get("lhs"), "cur_fragment_id")]
+        incs = {i for i, j, s in c.stmts() if _fld(s.get("lhs"), "cur_zone_offset")}
+        flushes = [b for b, _ in calls(body, "Builder::" + flush)]
+        tests = []      # (switch block, target taken when the zone is NOT empty)
+        for b in sorted(c.reach0):
+            si = c.switch_info(b)
+            d = c.bool_def(b) if si and si["kind"] == "bool" else None
+            if not (d and d[0] == "assign" and d[3]["rv"]["r"] == "bin" and d[3]["rv"]["b"].get("v") == 0):
+                continue
+            pa = op_place(d[3]["rv"]["a"])
+            if not (pa and _fld(c.canon(pa), "cur_zone_offset")):
+                continue
+            op = d[3]["rv"]["op"]
+            if op == "Eq":
+                tests.append((b, si["label_to"][False]))
+            elif op in ("Gt", "Ne"):
+                tests.append((b, si["label_to"][True]))
+        chk.floor(R, "%s: stores to cur_fragment_id" % name, len(stores), 2)
+        for n, (sb, s) in enumerate(stores, 1):
+            ok = False
+            for w, nonempty in tests:
+                if not c.dominates(w, sb):
+                    continue
+                # (a path that comes back to the test itself is tested again: stop there)
+                if sb in c.reachable_from([nonempty], include_start=True, avoid=flushes + [w]):
+                    continue
+                between = (c.reachable_from([w], include_start=False, avoid=[w]) & _back(c, sb, stop=w)) - {sb}
+                if between & incs:
+                    continue
+                ok = True
+            chk.ob(R, "%s:fragment-changes-on-empty-zone:%d" % (name, n), ok,
+                   "%s::train assigns cur_fragment_id (#%d) only when the current zone is empty (tested cur_zone_offset against 0, or flushed with %s, "
+                   "with no rows added in between): %s" % (name, n, flush, ok), body.loc(s["ln"]))
+        direct = [(g, s) for g, s in cmps if _is_fragment_id(g.cfg, s["rv"]["a"]) and _is_fragment_id(g.cfg, s["rv"]["b"])]
+        chk.ob(R, "%s:boundary-by-comparison" % name, bool(direct),
+               "%s::train compares a row's fragment id (row_addr >> 32) directly with the current fragment id (%d comparison(s))" % (name, len(direct)),
+               direct[0][0].loc(direct[0][1]["ln"]) if direct else f.loc())
+
+
 def search_fn(db, file):
     fs = [f for f in db.fns.values() if f.file.endswith(file) and f.kind == "method" and
           (f.r.get("impl_trait") or "").endswith("scalar::ScalarIndex") and f.path.endswith("::search")]
@@ -275,4 +379,5 @@ def run(db, chk):
     check_consumers(db, chk)
     check_scanner_recheck(db, chk)
     check_prune_looks_at_predicate(db, chk)
+    check_fragment_ids_are_labels(db, chk)
     chk.assume("an AtMost(M) leaf result really is a superset of the matching rows (index contents are not analysed)")
